@@ -78,7 +78,7 @@ class SB:
 
     def node(self, depth, loopvars, in_loop, allow_blocks):
         deep = depth < self.max_depth
-        choices = ["text", "text", "var", "var", "firstof", "echo", "echo", "comment1", "templatetag", "widthratio", "verbatim", "lorem"]
+        choices = ["text", "text", "var", "var", "firstof", "echo", "echo", "comment1", "templatetag", "widthratio", "verbatim", "lorem", "pct"]
         if deep:
             choices += ["if", "if", "for", "with", "filter", "autoescape", "spaceless", "comment", "include", "ifchanged"]
             if allow_blocks:
@@ -100,6 +100,13 @@ class SB:
             if self.chance(50):
                 args.append("k=" + self.pick(QUOTED))
             return self.tag("vf_echo", *args)
+        if kind == "pct":
+            # a lone `%` outside any string, in a tag that also has a quoted string (quote-aware tokenising path)
+            word = self.pick(["100%", '5%"y"', "%", "a%b", "5%'z'", "%%", "50 % 3", '%"q"'])
+            close = self.pick(["%}", " %}", "%}"])
+            if self.chance(60):
+                return "{% comment " + self.pick(QUOTED) + " " + word + close + self.pick(["{{ a }}", "text", ""]) + self.tag("endcomment") + self.pick(TEXTS)
+            return "{% vf_echo " + self.pick(QUOTED) + " " + word + close + self.pick(TEXTS) + self.tag("vf_echo", self.pick(QUOTED))
         if kind == "comment1":
             return "{#" + self.pick([" note ", " it's \"q\" ", " {% if %} ", ""]) + "#}"
         if kind == "templatetag":
